@@ -179,8 +179,18 @@ func runHookExecWL(e *Env) {
 					continue
 				}
 				y := o.Execs[owner-1]
-				if y.N != x.N && !(y.StartSeq < x.EndSeq && (y.EndSeq == 0 || y.EndSeq > x.StartSeq)) {
-					e.Viol("C12", "E7", "stale-temp-file", "%s sees %s of execution #%d which is not running any more", desc, f, y.N)
+				// an execution ends when Hook.Run returns, i.e. at the latest when its queue starts the next task
+				// (the stub only sees the end of the process, the files are removed a little later)
+				ended := false
+				for _, z := range byQ[o.queueOfExec(y)] {
+					if z.StartSeq > y.StartSeq && z.StartSeq < x.EndSeq {
+						ended = true
+					}
+				}
+				// (an execution that shows up in the log later may already have prepared its files: Hook.Run
+				// creates them before it starts the process)
+				if y.N != x.N && ended {
+					e.Viol("C12", "E7", "stale-temp-file", "%s sees %s of execution #%d which had ended before", desc, f, y.N)
 				}
 			}
 			if p == nil {
@@ -195,7 +205,14 @@ func runHookExecWL(e *Env) {
 				}
 			}
 			shouldFail := p.Exit != 0 || p.MetricsKind == "truncated" || p.MetricsKind == "wrongtype" || p.PatchKind == "invalid"
-			if next != nil {
+			onlyTicks := true
+			for _, c := range x.Ctxs {
+				if c.Type != "Schedule" {
+					onlyTicks = false
+				}
+			}
+			// the back-off is only a reliable sign of failure in a queue that always has work (schedule ticks)
+			if next != nil && onlyTicks {
 				failed := next.Start-x.End >= initial-time.Second
 				if failed != shouldFail {
 					sig := "failure-not-detected"
